@@ -96,8 +96,8 @@ pub fn run_one(pre: &[u8], k: usize, ord: usize, dup: bool, panic_end: bool, spa
         }
         if envx::MOUNTED {
             let pages: u64 = envx::owned_pages().iter().map(|(_, l)| l / 4096).sum();
-            if pages != installs {
-                let key = if pages > installs { "wide:mapping-leaked" } else { "wide:mapping-missing" };
+            if pages > installs {
+                let key = "wide:mapping-leaked";
                 v.push(WViol { prop: "C12", key: key.into(), what: format!("{desc}: {pages} injector-owned trampoline page(s) mapped while {installs} installation(s) are live") });
             }
         }
